@@ -21,7 +21,7 @@ import itertools
 
 from .. import par, world
 from ..cli import Report
-from ..lang import corpus, gen_k, gen_v, gen_x, render
+from ..lang import gen_loops, corpus, gen_k, gen_v, gen_x, render
 
 from bardolph.lib.time_pattern import TimePattern
 from bardolph.parser.parse import Parser
@@ -281,6 +281,16 @@ def brace_variants(prog):
                                                       b not in DOC_KEYWORDS and b not in ('H', 'S', 'B', 'K'))
         if a in takers and simple and b not in routines and (a != 'time' or b != 'at'):
             out.append(base[:i + 1] + ['{', b, '}'] + base[i + 2:])
+    # an element of a `repeat in` list (a light, group or location name)
+    in_list = False
+    for i, b in enumerate(base):
+        if b == 'in' and i > 0 and base[i - 1] not in ('{', '['):
+            in_list = True
+        elif b == 'as':
+            in_list = False
+        elif in_list and base[i - 1] in ('in', 'and', 'group', 'location') and \
+                (b.startswith('"') or (b.isidentifier() and b not in DOC_KEYWORDS and b not in routines)):
+            out.append(base[:i] + ['{', b, '}'] + base[i + 1:])
     # an operand inside an expression: braces round it leave the expression as it was
     depth = 0
     for i, b in enumerate(base):
@@ -303,7 +313,8 @@ def _part_b(rank, n):
     gens = itertools.chain(
         ((n_, p) for n_, p in gen_k.programs(5)),
         gen_x.programs(3, world.POP_THREE),
-        itertools.islice(gen_v.programs(2, world.POP_THREE), 0, None, 3))
+        itertools.islice(gen_v.programs(2, world.POP_THREE), 0, None, 3),
+        ((0, p) for tag, p in gen_loops.single(world.POP_THREE) if tag.startswith('in')))
     for n_, prog in gens:
         idx += 1
         if idx % n != rank:
